@@ -778,5 +778,3 @@ Proof.
   rewrite app_length. lia.
 Qed.
 
-Print Assumptions strict_p_object_rt.
-Print Assumptions strict_object_rt.
